@@ -16,10 +16,12 @@ const (
 	uR1 = 4 // hR1{Relation;int64}
 	uR2 = 5 // hR2{Relation}      0, relation
 	uP  = 6 // hP{*int64}
-	hNU = 7
+	uS  = 7 // hS{string}
+	hNU = 8
 )
 
 type hP struct{ P *int64 }
+type hS struct{ S string }
 
 const hMaxH = 10
 
@@ -39,6 +41,7 @@ type hW struct {
 	c     [hMaxH]uint8
 	r1    [hMaxH]int64
 	p     [hMaxH]*int64
+	s     [hMaxH]string
 
 	// dead handles of before the last reset (must stay distinguishable only by generation)
 	locks   int
@@ -127,10 +130,10 @@ func hFill(w *World, n int) {
 
 // hProfiles: component IDs of the universe per placement profile.
 var hProfiles = [4][hNU]uint8{
-	{0, 1, 2, 3, 4, 5, 6},
-	{15, 16, 17, 31, 32, 47, 48},
-	{15, 16, 17, 63, 64, 65, 127},
-	{128, 191, 192, 223, 224, 238, 239},
+	{0, 1, 2, 3, 4, 5, 6, 7},
+	{15, 16, 17, 31, 32, 47, 48, 49},
+	{15, 16, 17, 63, 64, 65, 127, 128},
+	{128, 191, 192, 223, 224, 238, 239, 240},
 }
 
 func hRegister(w *World, k int) ID {
@@ -147,8 +150,10 @@ func hRegister(w *World, k int) ID {
 		return ComponentID[hR1](w)
 	case uR2:
 		return ComponentID[hR2](w)
-	default:
+	case uP:
 		return ComponentID[hP](w)
+	default:
+		return ComponentID[hS](w)
 	}
 }
 
@@ -206,8 +211,10 @@ func (x *hW) comps(set uint8, v *hVals) []Component {
 			out = append(out, Component{ID: x.id[k], Comp: &hR1{V: v.r1}})
 		case uR2:
 			out = append(out, Component{ID: x.id[k], Comp: &hR2{}})
-		default:
+		case uP:
 			out = append(out, Component{ID: x.id[k], Comp: &hP{}})
+		default:
+			out = append(out, Component{ID: x.id[k], Comp: &hS{}})
 		}
 	}
 	return out
@@ -231,6 +238,9 @@ func (x *hW) mZero(i int, added uint8) {
 	if added&(1<<uP) != 0 {
 		x.p[i] = nil
 	}
+	if added&(1<<uS) != 0 {
+		x.s[i] = ""
+	}
 }
 
 func (x *hW) mSetVals(i int, set uint8, v *hVals) {
@@ -251,7 +261,7 @@ func (x *hW) mSetVals(i int, set uint8, v *hVals) {
 // mCreated records a newly issued handle.
 func (x *hW) mCreated(e Entity, set uint8, tgt Entity) int {
 	i := x.n
-	vAssume(i < hMaxH)
+	vBound(i < hMaxH, "handles<=10")
 	// a new handle differs from every handle issued since the last reset
 	for j := 0; j < x.n; j++ {
 		vAssert(x.h[j] != e, "new handle differs from every handle issued before")
@@ -334,6 +344,8 @@ func (x *hW) checkEntity(i int) {
 			vAssert((*hR1)(ptr).V == x.r1[i], "component R1 holds the last written value")
 		case uP:
 			vAssert((*hP)(ptr).P == x.p[i], "component P holds the last written pointer")
+		case uS:
+			vAssert((*hS)(ptr).S == x.s[i], "component S holds the last written string")
 		}
 	}
 	vAssert(mask.TotalBitsSet() == cnt, "Mask holds no component outside the history")
